@@ -449,14 +449,16 @@ theorem ginv_pushToBlock2 (P : Params) (S : GSess) (L : S.Laws P.codec) (st : St
     split at h
     · simp at h
     · simp at h; obtain ⟨rfl, rfl⟩ := h
-      have : GInv S (if st.writer.isSome = true then complete st else st) := by
+      have : GInv S (if st.writer.isSome = true then (if emptyMd5Valid P st = true then complete st else error st false) else st) := by
         split
-        · apply ginv_complete hg.toGStat hl
-          intro hop
-          obtain ⟨T, C, h1, h2, h3, _⟩ := (hj.opened hop).ex
-          have hT : T = 0 := by rw [htl] at h1; simp at h1; omega
-          rw [(h3 hT).2]
-          exact (List.eq_nil_of_length_eq_zero hz).symm
+        · split
+          · apply ginv_complete hg.toGStat hl
+            intro hop
+            obtain ⟨T, C, h1, h2, h3, _⟩ := (hj.opened hop).ex
+            have hT : T = 0 := by rw [htl] at h1; simp at h1; omega
+            rw [(h3 hT).2]
+            exact (List.eq_nil_of_length_eq_zero hz).symm
+          · exact ginv_error _ hg.toGStat hl
         · exact hg
       exact ⟨fun _ => this, this.toGStat⟩
   · rename_i hnz
@@ -791,11 +793,11 @@ theorem ginv_attachMeta {S : GSess} (st : St) (fdtId : Nat) (f : FileEntry) {st'
     · intro ho; simp [hw] at ho
     · intro hc; simp [hw] at hc
 
-theorem ginv_attachFdt (P : Params) (S : GSess) (L : S.Laws P.codec) (st : St) (fdtId : Nat) (file : Option FileEntry)
+theorem ginv_attachFdtOld (P : Params) (S : GSess) (L : S.Laws P.codec) (st : St) (fdtId : Nat) (file : Option FileEntry)
     {st' : St} {b : Bool}
     (hi : Inv st) (hj : JInv P st) (hg : GInv S st) (hf : GenOp S (.attach fdtId file))
-    (h : attachFdt P st fdtId file = .ok (st', b)) : GInv S st' := by
-  unfold attachFdt at h
+    (h : attachFdtOld P st fdtId file = .ok (st', b)) : GInv S st' := by
+  unfold attachFdtOld attachCore at h
   split at h
   · simp at h; rw [← h.1]; exact hg
   · rename_i hfd
@@ -856,6 +858,21 @@ theorem ginv_attachFdt (P : Params) (S : GSess) (L : S.Laws P.codec) (st : St) (
                 · rename_i st6 h6
                   simp at h; rw [← h.1]
                   exact ginv_pushFromCache _ _ L _ i6 j6 g6 h6
+
+
+theorem ginv_reset {S : GSess} {st : St} (hg : GInv S st) (hw : st.writer = none) : GInv S (resetOti st) := by
+  refine ⟨⟨.inl rfl, .inl rfl, hg.cenc, fun h => absurd rfl h, by simp [resetOti], hg.cacheGen⟩, ?_, ?_, ?_⟩
+  · intro i blk h; simp [resetOti] at h
+  · intro h; simp [resetOti, hw] at h
+  · intro h; simp [resetOti, hw] at h
+
+theorem ginv_attachFdt (P : Params) (S : GSess) (L : S.Laws P.codec) (st : St) (fdtId : Nat) (file : Option FileEntry)
+    {st' : St} {b : Bool}
+    (hi : Inv st) (hj : JInv P st) (hg : GInv S st) (hf : GenOp S (.attach fdtId file))
+    (h : attachFdt P st fdtId file = .ok (st', b)) : GInv S st' := by
+  rcases attachFdt_cases h with h0 | ⟨f, rfl, hw, _, h1⟩
+  · exact ginv_attachFdtOld P S L st fdtId file hi hj hg hf h0
+  · exact ginv_attachFdtOld P S L (resetOti st) fdtId _ (inv_reset hi) (jinv_reset hj hw) (ginv_reset hg hw) hf h1
 
 theorem ginv_run (P : Params) (S : GSess) (L : S.Laws P.codec) (st : St) (ops : List Op) {st' : St}
     (hi : Inv st) (hj : JInv P st) (hg : GInv S st) (hops : ∀ op ∈ ops, GenOp S op)
